@@ -83,7 +83,7 @@ CHECKS = {
          "DESIGN.md §5 C10"),
  "C05": ("exploration",
          "runtime monitor: prune runs on generated repository states (explicit commit dates far from every window edge, stashes of four shapes, extra worktrees, staged files, detached HEAD, partially pushed branches, tag-only commits) under attribute spellings and ambient Git configurations; store diff vs a deliberately weak must-retain lower bound computed with plain git plumbing; --verify-remote vs the fake server's store; --dry-run",
-         "Held on ~78 (quick) / 871 (thorough) prune runs over 18 / 198 repositories x linked-worktree states {present, staged file, detached, directory removed (prunable), removed+locked, removed+git worktree prune} x flags {--recent, --force, --verify-remote, --verify-unreachable, --when-unverified, --dry-run} x windows {0,1,3,7} x fetchexclude x 6 attribute spellings x 10 ambient configurations x cwd kinds. Every deleted object is checked against the must-retain clauses (checkout, index, stash additions, recent refs, recent previous versions, unpushed) and, with verification, against the server.",
+         "Held on ~144 (quick) / ~1600 (thorough) prune runs (plain and through git lfs fetch --prune) over 18 / 198 repositories, incl. runs on repositories damaged after the oracle was computed (unreadable stash / unpushed / HEAD-ancestor commits or trees, dangling ref: a scan that cannot complete gives prune no licence to delete) x linked-worktree states {present, staged file, detached, directory removed (prunable), removed+locked, removed+git worktree prune} x flags {--recent, --force, --verify-remote, --verify-unreachable, --when-unverified, --dry-run} x windows {0,1,3,7} x fetchexclude x 6 attribute spellings x 10 ambient configurations x cwd kinds. Every deleted object is checked against the must-retain clauses (checkout, index, stash additions, recent refs, recent previous versions, unpushed) and, with verification, against the server.",
          "must-retain is a lower bound (prune keeping more is never flagged): stashes count for what they add to their base commit, commits reachable only from a detached HEAD are not demanded, recent previous versions only for pointer-to-pointer replacements by non-merge commits. Commit ages {0.5,1.5,2.5,5,9,12,30} days keep >= 12 h from every window sum.",
          "DESIGN.md §5 C05"),
  "C14": ("exploration",
